@@ -6,6 +6,7 @@
 //!   width                  prints the group width compiled in
 
 mod alloc;
+mod ctors;
 mod ctx;
 mod dump;
 mod elem;
